@@ -414,7 +414,8 @@ def sample(case):
     return case if case['kind'] == 'gather' else c01.sample(case)
 
 
-THEOREM_FILES = ['P_C06']
+THEOREM_FILES = ['P_C06', 'P_C06_gen']
+THEOREM_NEEDS = {'P_C06_gen': ['Equiv_sorts']}
 RULE = ('random Hermitian FermionOperators q+q† (number operators, hops incl. spin flips, products of number '
         'operators, n-body strings of degree 4-8 in arbitrary operator order, constants, duplicate terms; '
         'coefficients multiples of 24) compiled for spin-conserving and spin-broken wavefunctions; plus single operator '
